@@ -22,6 +22,9 @@ TEXT = {
  "C04": {"ref": "DESIGN.md §7 C04", "technique": "Lean 4 theorem (pinned-node closure, prefix iff via common-prefix length) + correspondence incl. command line defaults",
          "text": "Proved: for every preserved prefix p (any length, nested, overlapping, longer than the anonymized part) p is a prefix of Ffull a iff of a; the trailing B bits are unchanged; the leading image bits are a function of the leading input bits only. Defaults (class + RFC1918 list, 8 host bits for both families) are checked on regenerated data and through the command line.",
          "note": IPNOTE},
+ "C05": {"ref": "DESIGN.md §7 C05", "technique": "Lean 4 theorems (kernel-decided mask table, bit-trick lemma by induction on width, prefix iff) + exhaustive correspondence on masks and perturbations",
+         "text": "Proved: _is_mask accepts all 66 mask/wildcard values (kernel-decided over the whole table) and is exactly 'the adjacent-bit difference word has at most one bit set' for every integer (bit trick proved for every width); should_anonymize is false for masks and members of preserved networks; for every preserved network (registered as a pinned prefix) outside stays outside under Ffull and Gfull. The characterisation 'at most one transition iff ones-then-zeros or zeros-then-ones' (the direction that non-masks are anonymized) and the verbatim return in the text layer are validated exhaustively on all masks and one-bit perturbations, not yet proved.",
+         "note": IPNOTE},
  "C17": {"ref": "DESIGN.md §7 C17", "technique": "Lean 4 invariant (graph of the map + key uniqueness) over all histories + correspondence on dump_to_file and --dump-ip-map",
          "text": "Proved for every history on a constructed anonymizer: the dump (full-length memo entries) contains every anonymized address with exactly the image returned, lists no original and no replacement twice, and every listed pair satisfies v = Ffull k (both the B = 0 and the B > 0 caching path).",
          "note": IPNOTE},
